@@ -49,6 +49,7 @@ type Plan struct {
 	RevBig       int     `json:"rev_big,omitempty"`        // one reverse call whose argument, and therefore the client's response, has this many bytes
 	RevStream    int     `json:"rev_stream,omitempty"`     // the handler subscribes to a stream of this many elements served by the calling client
 	RevStreamPad int     `json:"rev_stream_pad,omitempty"` // padding of every (odd) element of that stream
+	ViaAlias     bool    `json:"via_alias,omitempty"`      // sub: through the client function bound to a server-side alias of Tok.Sub
 	TagFalse     bool    `json:"tag_false,omitempty"`      // call: through the client function tagged retry:"false" (an ordinary call)
 	RevSticky    int     `json:"rev_sticky,omitempty"`     // the handler subscribes to a client-served stream of this many elements whose producer ignores its context
 	Bare         bool    `json:"bare,omitempty"`           // subscribe through the method whose only result is the channel (no error result)
@@ -703,6 +704,8 @@ type TokClient struct {
 	SubFloat func(ctx context.Context, tok string, plan Plan) (<-chan float64, error)
 	SubRich  func(ctx context.Context, tok string, plan Plan) (<-chan Rich, error)
 	SubBare  func(ctx context.Context, tok string, plan Plan) <-chan Item
+	// SubAlias reaches Tok.Sub through a server-side alias
+	SubAlias func(ctx context.Context, tok string, plan Plan) (<-chan Item, error) `rpc_method:"Tok.SubVia"`
 	// NotifySub sends a notification to the channel-returning method
 	NotifySub func(ctx context.Context, tok string, plan Plan) error `notify:"true" rpc_method:"Tok.Sub"`
 	// Mismatch is declared as a subscription here, but the server method behind it returns a string: the response
@@ -719,6 +722,9 @@ type TokClient struct {
 // OpenSub subscribes through Sub, or through SubBare when the plan says so (a client function without an error
 // result has no way of reporting a failure except by panicking: that is turned into an error here).
 func (c *TokClient) OpenSub(ctx context.Context, tok string, plan Plan) (ch <-chan Item, err error) {
+	if plan.ViaAlias && c.SubAlias != nil {
+		return c.SubAlias(ctx, tok, plan)
+	}
 	if !plan.Bare {
 		return c.Sub(ctx, tok, plan)
 	}
